@@ -416,7 +416,10 @@ class Check(PropertyCheck):
                   "without ':', scalar values — nothing about base64 / UTF-8 / whitespace / case folding); HtpasswdFile.__init__ "
                   "(splitlines / strip / first-colon split / hash-format check) is transcribed and the end-to-end model parses the "
                   "file content itself (htparse_entries_wellformed, htparse_bad_line_rejects); ProxyAuth.configure's dispatch is "
-                  "transcribed (configure_single_spec: the single-user validator exists exactly for values with one ':'); "
+                  "transcribed (configure_single_spec: the single-user validator exists exactly for values with one ':'); (round 5) "
+                  "whatever a client sends, the user/password text handed to the validator consists of Unicode scalar values on "
+                  "every path (basic_decoded_text_is_scalar, socks_decoded_text_is_scalar, a2b_bytes), so the validator's own "
+                  "password.encode cannot raise; "
                   "and fail-closedness under a validator that RAISES (raising_validator_fails_closed, "
                   "raising_validator_fails_closed_socks, accepts_iff_check_ok: the validator is modelled as returning an Except; "
                   "bcrypt.checkpw on > 72 bytes and an injected raising validator are driven end to end). Model = ProxyAuth (parse_http_basic_auth, validators any/single/htpasswd-table, "
